@@ -13,6 +13,7 @@ PACKAGES = [
     "core/environment", "core/task", "core", "core/the",
     "executor/executable", "executor/executorcmd", "executor",
     "apricot/local",
+    "configuration/cfgbackend",
 ]
 
 def sh(cmd, **kw):
